@@ -59,3 +59,21 @@ Proof.
            | ex_intro _ w (conj Hp _) => ex_intro _ d (ex_intro _ w (conj Hp eq_refl))
            end).
 Qed.
+
+From OV Require Rt.BareWordParse Rt.BareWordLex Rt.BareWord Rt.BareWordEx.
+(* core3 = core2 documents whose string values may also be written BARE by the emitter (plain, dotted, dashed words and
+   $VAR variables, in assignment position, as list items in both layouts and as META values): re-readable and a fixpoint *)
+Theorem C01_text_fixpoint_core3 :
+  forall cls numcanon holo_ok strict sp d,
+    BareWordParse.core3_doc d = true -> BareWord.lex_safe3_doc d = true ->
+    TokRound2.nums_ok2_l numcanon TokRound2Ex.ex_idnum (dsections d) -> Forall (TokRound2.field_num_ok numcanon) (dmeta d) ->
+    exists d' warns, parse_model cls numcanon holo_ok strict (lines_of (emit sp d)) = PRDoc d' [] warns /\ emit sp d' = emit sp d.
+Proof.
+  exact (fun cls n h s sp d Hc Hl Hn Hm =>
+           match BareWord.text_roundtrip_core3 cls n h s sp d Hc Hl Hn Hm with
+           | ex_intro _ w (conj Hp _) => ex_intro _ d (ex_intro _ w (conj Hp eq_refl))
+           end).
+Qed.
+Theorem C01_text_fixpoint_core3_nonvacuous :
+  BareWordParse.core3_doc BareWordEx.ex_bare = true /\ BareWord.lex_safe3_doc BareWordEx.ex_bare = true.
+Proof. exact (conj BareWordEx.ex_bare_core BareWordEx.ex_bare_safe). Qed.
